@@ -34,7 +34,8 @@ def sh(cmd, cwd=None, timeout=1500):
 
 
 meta = {"property": prop, "source": "independent sub-agent (given only the property text and a scratch worktree)", "ran": []}
-rc, out = sh(f"git -C /repo worktree add --detach {wt} HEAD -q")
+_base = sys.argv[sys.argv.index("--base") + 1] if "--base" in sys.argv else "HEAD"
+rc, out = sh(f"git -C /repo worktree add --detach {wt} {_base} -q")
 assert rc == 0, out
 try:
     rc0, o0 = sh(f"{PY} {d}/demo.py", cwd=wt)
@@ -49,30 +50,47 @@ finally:
     sh(f"git -C /repo worktree remove --force {wt}")
     shutil.rmtree(wt, ignore_errors=True)
 
-# the checker against /repo itself (serialised: only one process may patch /repo at a time)
+# the checker, on a scratch worktree at the seed's base commit (never touches /repo):
+# detection = violations reported with the patch that are not reported on the base tree
 import fcntl
 
 _lock = open("/tmp/verify_seed.lock", "w")
-fcntl.flock(_lock, fcntl.LOCK_EX)
-st = subprocess.run("git -C /repo status --porcelain", shell=True, capture_output=True, text=True).stdout.strip()
-assert st == "", "/repo not clean: " + st
+fcntl.flock(_lock, fcntl.LOCK_EX)  # evidence files are shared: one checker run at a time
+base = "HEAD"
+if "--base" in sys.argv:
+    base = sys.argv[sys.argv.index("--base") + 1]
+meta["base_commit"] = subprocess.run(f"git -C /repo rev-parse --short {base}", shell=True, capture_output=True, text=True).stdout.strip()
 props = [prop] + [x for x in sys.argv[3:] if x.startswith("C") and len(x) == 3]
 det = {}
+wt2 = f"/tmp/vc_{prop}_{k}_{os.getpid()}"
+rc, out = sh(f"git -C /repo worktree add --detach {wt2} {base} -q")
+assert rc == 0, out
+
+
+def viol(outtxt):
+    return {l.split("replay=")[1].strip() for l in outtxt.splitlines() if l.startswith("VIOLATION")}
+
+
 try:
-    rc, out = sh(f"git -C /repo apply {d}/patch.diff")
-    assert rc == 0, out
+    before = {}
     for p_ in props:
-        rcc, oc = sh(f"{PY} -m jtsa check {p_}", cwd="/verif")
-        lines = [l for l in oc.splitlines() if l.startswith("[C") or "VIOLATION" in l or "ANALYSIS-ERROR" in l]
-        det[p_] = {"exit": rcc, "report": lines[:12]}
+        rcc, oc = sh(f"{PY} -m jtsa check {p_} --root {wt2}", cwd="/verif")
+        before[p_] = (rcc, viol(oc))
+    rc, out = sh(f"git apply {d}/patch.diff", cwd=wt2)
+    assert rc == 0, "patch does not apply to base: " + out
+    for p_ in props:
+        rcc, oc = sh(f"{PY} -m jtsa check {p_} --root {wt2}", cwd="/verif")
+        newv = viol(oc) - before[p_][1]
+        lines = [l for l in oc.splitlines() if l.startswith("[C") or "ANALYSIS-ERROR" in l]
+        det[p_] = {"exit_base": before[p_][0], "exit": rcc, "new_violations": len(newv), "report": [l[:300] for l in lines[:10]]}
 finally:
-    sh("git -C /repo checkout -- .")
-    # evidence files were rewritten by the run on the patched tree: restore them
+    sh(f"git -C /repo worktree remove --force {wt2}")
+    shutil.rmtree(wt2, ignore_errors=True)
     for p_ in props:
-        sh(f"{PY} -m jtsa check {p_}", cwd="/verif")
+        sh(f"{PY} -m jtsa check {p_}", cwd="/verif")  # restore the evidence files for /repo
 meta["checker"] = det
 meta["valid"] = (rc0 == 0 and rc1 != 0 and rcb == 0)
-meta["detected_by"] = [p_ for p_, v in det.items() if v["exit"] == 1]
+meta["detected_by"] = [p_ for p_, v in det.items() if v["exit"] == 1 and v["new_violations"] > 0]
 notes = open(f"{d}/NOTES.md").read() if os.path.exists(f"{d}/NOTES.md") else ""
 meta["needs_to_manifest"] = notes[:1500]
 dst = f"/verif/seeded/{prop}_{k}"
